@@ -85,7 +85,7 @@ type Config struct {
 var Small = map[string]bool{"same-key-twice": true, "two-keys-growing-log": true, "upper-and-gomod": true, "two-clients-same-key": true, "nosumdb-next-to-normal": true, "nosumdb-only-client": true, "one-thread-two-lookups-vs-one": true, "fork-two-clients-empty-config": true}
 
 // Compact lists the scenarios that get one more deviation (few scheduling points per execution).
-var Compact = map[string]bool{"three-heads-one-client-h8": true, "same-key-twice": true, "two-keys-growing-log": true, "two-clients-same-key": true, "one-thread-two-lookups-vs-one": true, "fork-two-clients-empty-config": true}
+var Compact = map[string]bool{"three-heads-one-client-h8": true, "same-key-twice": true, "two-keys-growing-log": true, "two-clients-same-key": true, "one-thread-two-lookups-vs-one": true, "fork-two-clients-empty-config": true, "fork-one-client-two-threads": true}
 
 func prefixArg(p []int) string {
 	var ss []string
@@ -101,6 +101,13 @@ func prefixArg(p []int) string {
 func RunSchedules(r *fw.Run, scs []scen.Scenario, cfgs []Config, perJob, total time.Duration) {
 	if _, err := os.Stat(schedBin()); err != nil {
 		r.Violation("no-scheduler-binary", "the scheduler-instrumented worker binary was not built: "+err.Error(), nil)
+		return
+	}
+	if u := os.Getenv("VERIF_SCHED_UNSUPPORTED"); u != "" {
+		// the package now synchronises through constructs the scheduler cannot intercept (channels,
+		// select, timers): a controlled execution could block for ever. Say so instead of exploring.
+		r.Cap("controlled-scheduler exploration skipped: package sumdb uses constructs outside the scheduler's model: " + u)
+		r.Note("schedules not explored for this tree; only the parts of the check that do not need the scheduler ran")
 		return
 	}
 	deadline := time.Now().Add(total)
